@@ -43,25 +43,33 @@ SampleSize(t, k) ==
   IF t.stsz.size > 0 THEN Ok(t.stsz.size)
   ELSE IF k >= 1 /\ k <= Len(t.stsz.sizes) THEN Ok(t.stsz.sizes[k]) ELSE NotFound
 
-\* sum of sample_size(i) for i in lo..hi-1; stops at the first failure
+\* sum of sample_size(i) for i in lo..hi-1 (a Big: u64 in the code, checked); stops at the first failure
 RECURSIVE SizeSumR(_, _, _, _)
 SizeSumR(t, i, hi, acc) ==
   IF i >= hi THEN Ok(acc)
   ELSE LET s == SampleSize(t, i) IN
-       IF s.res # "ok" THEN s ELSE SizeSumR(t, i + 1, hi, acc + s.v)
+       IF s.res # "ok" THEN s ELSE SizeSumR(t, i + 1, hi, Add(acc, FromInt(s.v)))
+
+U64Max == <<255, 255, 255, 255, 255, 255, 255, 255>>
+FitsU64(a) == Len(a) <= 8
 
 SampleOffset(t, k) ==
   LET ix == StscIndex(t, k) IN
   IF ix.res # "ok" THEN ix
   ELSE LET e  == t.stsc[ix.v]
            fs == FirstSamples(t.stsc)[ix.v]
-       IN IF e.spc = 0 THEN [res |-> "panic", why |-> "division by zero"]
+       IN IF e.spc = 0 THEN Err("stsc entry with zero samples per chunk")
           ELSE LET chunk == (k - fs) \div e.spc + e.first
                    co    == ChunkOffset(t, chunk)
                IN IF co.res # "ok" THEN co
-                  ELSE LET firstInChunk == k - ((k - fs) % e.spc)
-                           sum == SizeSumR(t, firstInChunk, k, 0)
-                       IN IF sum.res # "ok" THEN sum ELSE Ok(Add(co.v, FromInt(sum.v)))
+                  ELSE LET firstInChunk == k - ((k - fs) % e.spc) IN
+                       IF t.stsz.size > 0
+                       THEN \* constant sample size: (samples before k in the chunk) * size, in 64 bits, checked
+                            LET off == Add(co.v, Mul(FromInt(k - firstInChunk), FromInt(t.stsz.size))) IN
+                            IF FitsU64(off) THEN Ok(off) ELSE Err("overflow")
+                       ELSE LET sum == SizeSumR(t, firstInChunk, k, <<>>) IN
+                            IF sum.res # "ok" THEN sum
+                            ELSE IF FitsU64(Add(co.v, sum.v)) THEN Ok(Add(co.v, sum.v)) ELSE Err("overflow")
 
 \* sample_time: walk the stts runs
 RECURSIVE SampleTimeR(_, _, _, _, _)
